@@ -968,6 +968,17 @@ def call_pymethod(I, base, name, args, kwargs, node, fr):
             return Num("b", const=getattr(base.const, name)(args[0].const))
         if base.const is not None and name in ("lower", "upper", "strip") and not args:
             return StrV(getattr(base.const, name)())
+        if base.const is not None and name in ("partition", "rpartition") and len(args) == 1 and isinstance(args[0], StrV) and args[0].const:
+            return Tup([StrV(x) for x in getattr(base.const, name)(args[0].const)])
+        if base.const is not None and name in ("split", "rsplit") and 1 <= len(args) <= 2 and isinstance(args[0], StrV) and args[0].const \
+                and all(isinstance(a, Num) and isinstance(a.const, int) for a in args[1:]):
+            return Lst([StrV(x) for x in getattr(base.const, name)(args[0].const, *[a.const for a in args[1:]])])
+        if base.const is not None and name in ("removesuffix", "removeprefix", "replace") and args and all(isinstance(a, StrV) and a.const is not None for a in args):
+            return StrV(getattr(base.const, name)(*[a.const for a in args]))
+        if name in ("partition", "rpartition"):
+            return Tup([StrV(), StrV(), StrV()])
+        if name in ("split", "rsplit"):
+            return Lst(elem=StrV())
         return StrV()
     if isinstance(base, Tup):
         if name == "index":
